@@ -1,6 +1,7 @@
 package gen
 
 import (
+	"math"
 	"math/rand"
 	"strings"
 
@@ -18,9 +19,17 @@ var unsupportedCodes = []uint64{0, 0x11, 0x14, 0x16, 0xb220, 0x13, 0x20, 1 << 20
 func randContainerSimple(r *rand.Rand) interface{} {
 	for {
 		v := SimpleValue(r, 1+r.Intn(3))
-		switch v.(type) {
-		case map[string]interface{}, []interface{}:
-			return v
+		switch t := v.(type) {
+		case map[string]interface{}:
+			if r.Intn(4) == 0 {
+				t["z"+ident(r, 2)] = math.Copysign(0, -1) // negative zero: the same JSON value as 0
+			}
+			return t
+		case []interface{}:
+			if r.Intn(4) == 0 {
+				return append(t, math.Copysign(0, -1))
+			}
+			return t
 		}
 	}
 }
@@ -34,6 +43,8 @@ func mutateSimple(r *rand.Rand, v interface{}) interface{} {
 		return !t
 	case int64:
 		return t + 1
+	case float64:
+		return int64(1)
 	case string:
 		return t + "x"
 	case []interface{}:
